@@ -2088,6 +2088,159 @@ pub mod vx_ids {
             }
         }
     @*/
+
+    // ---- IdMap::from_set ---------------------------------------------------------------------------------------------------
+    // The two wrapper iterators are inlined after checking their constructors (R17):
+    //   IdSet::iter()  = Iter(self.0.clients().iter()),   Iter::next       = inner next mapped by |(k, v)| (k, Ranges(v))
+    //   Ranges::iter() = RangesIter(self.0.inner().iter()), RangesIter::next = inner next mapped by |(r, _)| r
+    // so `for (client, ranges) in id_set.iter()` visits the pairs of the client map and `for range in ranges.iter()` the
+    // ranges of the entries of one client.  Statements that build `content_attrs` through the `attrs` cache are dropped.
+
+    /// `r` has the clocks of the first `n` entries of `a`, all carrying (a value equal to) `v`
+    pub open spec fn seq_const_upto<CA: Merge>(a: Seq<Ent<()>>, n: int, v: CA, r: Seq<Ent<CA>>) -> bool {
+        &&& canon(r)
+        &&& forall|k: int| #![trigger covers(r, k)] #![trigger covers_upto(a, n, k)] covers(r, k) <==> covers_upto(a, n, k)
+        &&& forall|k: int| covers(r, k) ==> #[trigger] val_at(r, k).eq_spec(&v)
+    }
+
+    pub proof fn lemma_const_step<CA: Merge>(a: Seq<Ent<()>>, n: int, v: CA, r0: Seq<Ent<CA>>, r1: Seq<Ent<CA>>)
+        requires
+            canon(a),
+            0 <= n < a.len(),
+            v.wf(),
+            seq_const_upto(a, n, v, r0),
+            seq_inserted(r0, a[n].0, v, r1),
+        ensures
+            seq_const_upto(a, n + 1, v, r1),
+    {
+        let rg = a[n].0;
+        assert forall|k: int| inr(rg, k) implies !covers_upto(a, n, k) by {
+            if covers_upto(a, n, k) {
+                let j = choose|j: int| 0 <= j < n && j < a.len() && #[trigger] inr(a[j].0, k);
+                assert(a[j].0.end <= a[n].0.start);
+            }
+        }
+        assert forall|k: int| #![trigger covers(r1, k)] #![trigger covers_upto(a, n + 1, k)] covers(r1, k) <==> covers_upto(a, n + 1, k) by {
+            if covers_upto(a, n + 1, k) {
+                let j = choose|j: int| 0 <= j < n + 1 && j < a.len() && #[trigger] inr(a[j].0, k);
+                if j < n { assert(covers_upto(a, n, k)); }
+            }
+            if covers_upto(a, n, k) {
+                let j = choose|j: int| 0 <= j < n && j < a.len() && #[trigger] inr(a[j].0, k);
+                assert(0 <= j < n + 1 && inr(a[j].0, k));
+            }
+            if inr(rg, k) { assert(inr(a[n].0, k)); }
+        }
+        assert forall|k: int| covers(r1, k) implies #[trigger] val_at(r1, k).eq_spec(&v) by {
+            if inr(rg, k) {
+                assert(!covers(r0, k));
+            } else {
+                assert(covers(r0, k));
+                lemma_val_wf(r1, k);
+                lemma_val_wf(r0, k);
+                val_at(r1, k).law_eq_trans(&val_at(r0, k), &v);
+            }
+        }
+    }
+
+    pub proof fn lemma_upto_all<T>(a: Seq<Ent<T>>, k: int)
+        ensures covers_upto(a, a.len() as int, k) <==> covers(a, k),
+    {
+        if covers(a, k) {
+            let j = idx_of(a, k);
+            assert(inr(a[j].0, k));
+        }
+        if covers_upto(a, a.len() as int, k) {
+            let j = choose|j: int| 0 <= j < a.len() && j < a.len() && #[trigger] inr(a[j].0, k);
+            assert(inr(a[j].0, k));
+        }
+    }
+
+    /// what from_set has built for the clients in `done`
+    pub open spec fn from_set_inv<CA: Merge>(src: Map<ClientID, Seq<Ent<()>>>, v: CA, m: Map<ClientID, Seq<Ent<CA>>>, done: Set<ClientID>) -> bool {
+        forall|c: ClientID| #![trigger m.contains_key(c)] #![trigger done.contains(c)]
+            (m.contains_key(c) <==> done.contains(c))
+            && (done.contains(c) ==> src.contains_key(c) && m[c].len() > 0 && seq_const_upto(src[c], src[c].len() as int, v, m[c]))
+    }
+
+    /*@extract yrs/src/id_map.rs | impl<A: PartialEq + Eq + Hash + Clone> IdMap<A> | region from_set | arm=pub fn from_set(id_set: IdSet, attrs: Vec<ContentAttribute<A>>) -> Self | label=idmap_from_set | skip=R6 | rules=INLINE(file=yrs/src/id_set.rs;;container=impl IdSet;;fn=iter;;body=Iter(self.0.clients().iter());;call=id_set.iter();;to=id_set.0.clients().iter()) INLINE(file=yrs/src/id_set.rs;;container=impl<'a> Ranges<'a>;;fn=iter;;body=RangesIter(self.0.inner().iter());;call=ranges.iter();;to=ranges.0.iter()) SUB(from=for range in;;to=for (range, _) in)
+    @header
+        fn idmap_from_set<CA: Merge>(id_set: IdSet, content_attrs: CA) -> (res: IdMap<CA>)
+    @drop `let mut attrs: SmallVec<[ContentAttribute<A>; 2]> = attrs.into();`
+    @drop `attrs.dedup();`
+    @drop `id_map.ensure_attrs(&mut attrs);`
+    @drop `let content_attrs = ContentAttributes(attrs);`
+    @sig
+        requires wf_map(id_set@), content_attrs.wf(),
+        ensures
+            wf_map(res@),
+            forall|c: ClientID, k: int| #![trigger has_pt(res@, c, k)] #![trigger has_pt(id_set@, c, k)] has_pt(res@, c, k) <==> has_pt(id_set@, c, k),
+            forall|c: ClientID, k: int| has_pt(res@, c, k) ==> #[trigger] val(res@, c, k).eq_spec(&content_attrs),
+    @start
+        let ghost mut done = Set::<ClientID>::empty();
+        let ghost src = id_set.0.raw();
+        proof { axiom_client_id_key_model(); lemma_lift_basics(src); }
+    @loop 1 iter=it
+        invariant
+            src == id_set.0.raw(),
+            iter_of(it.seq(), src),
+            wf_map(lift(src)),
+            content_attrs.wf(),
+            from_set_inv(lift(src), content_attrs, id_map@, done),
+            forall|c: ClientID| done.contains(c) <==> visited(it.seq(), it.index@ as int, c),
+    @before 1 `stmt:let id_ranges`
+        let ghost n = it.index@ as int;
+        let ghost s = ranges@;
+        let ghost m0 = id_map@;
+        let ghost raw0 = id_map.inner.raw();
+        proof {
+            axiom_client_id_key_model();
+            lemma_lift_basics(src);
+            lemma_lift_basics(raw0);
+            assert(it.seq()[n] == (client, ranges));
+            assert(src.contains_key(*client) && src[*client] == *ranges);
+            assert(lift(src).contains_key(*client) && lift(src)[*client] == s);
+            assert(canon(s) && s.len() > 0);
+        }
+    @loop 2 iter=it2
+        invariant
+            it2.seq().len() == s.len(),
+            forall|j: int| 0 <= j < s.len() ==> *(#[trigger] it2.seq()[j]) == s[j],
+            canon(s),
+            content_attrs.wf(),
+            seq_const_upto(s, it2.index@ as int, content_attrs, id_ranges@),
+    @before 1 `stmt:call insert_with`
+        let ghost i = it2.index@ as int;
+        let ghost g0 = id_ranges@;
+        proof { assert(*it2.seq()[i] == s[i]); }
+    @after 1 `stmt:call insert_with`
+        proof {
+            assert(seq_inserted(g0, s[i].0, content_attrs, id_ranges@));
+            lemma_const_step(s, i, content_attrs, g0, id_ranges@);
+        }
+    @after 2 `stmt:for`
+        let ghost r1 = id_ranges@;
+        proof {
+            lemma_nonempty_point(s);
+            let k0 = choose|k: int| covers(s, k);
+            lemma_upto_all(s, k0);
+            assert(covers(r1, k0));
+            lemma_nonempty_point(r1);
+        }
+    @after 1 `stmt:call clients_mut`
+        proof {
+            let raw1 = id_map.inner.raw();
+            let x = raw1[*client];
+            assert(raw1 == raw0.insert(*client, x));
+            lemma_lift_insert(raw0, *client, x);
+            assert(id_map@ == m0.insert(*client, r1));
+            let d2 = done.insert(*client);
+            assert forall|c: ClientID| d2.contains(c) <==> visited(it.seq(), n + 1, c) by {
+                lemma_visited_step(it.seq(), n, c);
+            }
+            done = d2;
+        }
+    @*/
 }
 
 } // verus!
